@@ -688,6 +688,18 @@ bool Token::Match(const Token *tok, const char pattern[], nonneg int varid)
                 continue;
             }
 
+            // A word with an empty alternative ("a|b|") also matches "no token",
+            // this is what the match compiler generates
+            if (!(p[0] == '[' && chrInFirstWord(p, ']'))) {
+                const char *e = p;
+                while (*e && *e != ' ')
+                    ++e;
+                if (e - p > 1 && e[-1] == '|') {
+                    p = e;
+                    continue;
+                }
+            }
+
             return false;
         }
 
